@@ -62,7 +62,16 @@ func (a *aval) String() string {
 		}
 		return a.dyn.String()
 	case aStruct:
-		return "struct"
+		var ks []string
+		for k := range a.fields {
+			ks = append(ks, k)
+		}
+		sort.Strings(ks)
+		var parts []string
+		for _, k := range ks {
+			parts = append(parts, k+":"+a.fields[k].String())
+		}
+		return "{" + strings.Join(parts, ", ") + "}"
 	}
 	return "?"
 }
@@ -101,6 +110,8 @@ type interp struct {
 	// hook: name the question asked by a branch whose condition does not fold;
 	// the answer taken is recorded in the path's notes as "<label>=true|false"
 	forkHook func(st *istate, cond *aval, ifi *ssa.If) string
+	// hook: observe a map update (map, key, value)
+	mapUpdateHook func(st *istate, mu *ssa.MapUpdate, m, k, v *aval)
 }
 
 type istate struct {
@@ -297,6 +308,26 @@ func (in *interp) instr(st *istate, ins ssa.Instruction) {
 		if _, ok := x.Addr.(*ssa.Alloc); ok {
 			st.mem[x.Addr] = in.get(st, x.Val)
 		}
+		// a store into a field of a local struct: keep the struct's known fields
+		if fa, ok := x.Addr.(*ssa.FieldAddr); ok {
+			if al, ok := fa.X.(*ssa.Alloc); ok {
+				_, name := fieldRef(fa.X, fa.Field)
+				m := st.mem[al]
+				if m == nil || m.k != aStruct {
+					m = &aval{k: aStruct, fields: map[string]*aval{}}
+				} else {
+					// copy on write: states are forked shallowly
+					nm := &aval{k: aStruct, fields: map[string]*aval{}}
+					for k, v := range m.fields {
+						nm.fields[k] = v
+					}
+					m = nm
+				}
+				m.fields[name] = in.get(st, x.Val)
+				st.mem[al] = m
+				st.mem[fa] = m.fields[name]
+			}
+		}
 	case *ssa.UnOp:
 		v := in.get(st, x.X)
 		switch x.Op {
@@ -491,7 +522,11 @@ func (in *interp) instr(st *istate, ins ssa.Instruction) {
 			}
 		}
 		st.env[x] = symv("range("+in.get(st, x.X).String()+")", x.Type())
-	case *ssa.IndexAddr, *ssa.Index, *ssa.Lookup, *ssa.MakeSlice, *ssa.MakeMap, *ssa.MakeClosure, *ssa.Next, *ssa.MapUpdate, *ssa.DebugRef, *ssa.RunDefers, *ssa.Defer:
+	case *ssa.MapUpdate:
+		if in.mapUpdateHook != nil {
+			in.mapUpdateHook(st, x, in.get(st, x.Map), in.get(st, x.Key), in.get(st, x.Value))
+		}
+	case *ssa.IndexAddr, *ssa.Index, *ssa.Lookup, *ssa.MakeSlice, *ssa.MakeMap, *ssa.MakeClosure, *ssa.Next, *ssa.DebugRef, *ssa.RunDefers, *ssa.Defer:
 		if v, ok := ins.(ssa.Value); ok {
 			ops := []string{}
 			for _, op := range ins.Operands(nil) {
